@@ -16,7 +16,7 @@ from .. import boot, common, sx
 from ..sx import SZ3Str
 
 STR_SPELLINGS = ['""', '"a"', '"a b"', '"\\n"', '"\\t\\r\\b\\f"', '"\\\\"', '"C:\\\\apps"', '"\\\\N"', '"\\\\U"', '"\\""', '"\'"', '"\\u00e9"', '"\\u0041"', '"\xe9"', '"\\\\\\\\"',
-                 '"a\\\\tb"', '"\\\\x41"', '"{0}"', '"%s"', '"null"', '"1"']
+                 '"a\\\\tb"', '"\\\\x41"', '"a\\/b"', '"\\ud83d\\ude00"', '"\\u2028"', '"\\u0000"', '"{0}"', '"%s"', '"null"', '"1"']
 NUM_SPELLINGS = ['0', '1', '-1', '10', '1.5', '-0.5', '0.0', '1e3', '1E3', '1e+3', '1e-3', '0e0', '0E5', '-0e-3', '0.0e1', '123456789012345678901234567890', '1.0e10', '-0', '2.5e-7', '0.1']
 K_SOLIDUS = 'C19: the JSON escape \\/ in a string is not evaluated to /'
 K_SURROGATE = 'C19: a JSON surrogate pair is extracted as two lone surrogates'
